@@ -275,6 +275,9 @@ structure Ident where
   /-- `multi_target` of a route gate (`None`, printed, for every other node): a multi-target gate validates
   and stores its decision differently (a list of targets) -/
   multiTarget : Bool := false
+  /-- the emit signals, apart from the data outputs (repair "data outputs and emit signals are told apart in the cache identity"):
+  `("a", "b")` as two values is not `"a"` as a value plus the signal `"b"` -/
+  emits : List Name := []
   deriving DecidableEq, Repr, Inhabited
 
 def insertKV (kv : Name × Val) : AL Val → AL Val
@@ -307,6 +310,13 @@ structure KeyEnv where
   hash : Key → Name
 
 def identOf (env : KeyEnv) (nd : NodeD) : Ident :=
+  { defHash := env.defHash nd, cls := className nd.kind, outputs := nd.dataOuts, targets := nd.targets,
+    fallback := nd.fallback, multiTarget := nd.multiTarget, emits := nd.emits }
+
+/-- the identity before the repair "data outputs and emit signals are told apart": `node.outputs`, the concatenation — a node with
+the data outputs `("a", "b")` and a node over the same function with the data output `"a"` and the signal `"b"` shared an entry (the
+second was served `b` as a value and its function was not invoked). Kept for the negative witness `HG.C09.emit_split_collision_witness`. -/
+def identOfJoined (env : KeyEnv) (nd : NodeD) : Ident :=
   { defHash := env.defHash nd, cls := className nd.kind, outputs := nd.outputs, targets := nd.targets,
     fallback := nd.fallback, multiTarget := nd.multiTarget }
 
@@ -315,8 +325,8 @@ one routing function with equal targets, one single-target and one multi-target,
 multi-target gate was served the single decision (and completed) where the uncached run rejects a
 non-list decision. Kept for the negative witness `HG.C09.multi_target_collision_witness`. -/
 def identOfNoMulti (env : KeyEnv) (nd : NodeD) : Ident :=
-  { defHash := env.defHash nd, cls := className nd.kind, outputs := nd.outputs, targets := nd.targets,
-    fallback := nd.fallback }
+  { defHash := env.defHash nd, cls := className nd.kind, outputs := nd.dataOuts, targets := nd.targets,
+    fallback := nd.fallback, emits := nd.emits }
 
 /-- the identity before the fallback repair: `fallback` is not part of it (the component is constantly
 `none`). The cached routing decision is the one *after* the fallback was applied (`HG.execRoute`), so two
@@ -324,8 +334,8 @@ route gates over one function with equal targets and different fallbacks shared 
 was served the first one's decision. Kept for the negative witness
 `HG.C09.fallback_collision_witness`. -/
 def identOfNoFallback (env : KeyEnv) (nd : NodeD) : Ident :=
-  { defHash := env.defHash nd, cls := className nd.kind, outputs := nd.outputs, targets := nd.targets,
-    fallback := .none, multiTarget := nd.multiTarget }
+  { defHash := env.defHash nd, cls := className nd.kind, outputs := nd.dataOuts, targets := nd.targets,
+    fallback := .none, multiTarget := nd.multiTarget, emits := nd.emits }
 
 /-- the key before the fallback repair (`identOfNoFallback` in place of `identOf`) -/
 def keyOfNoFallback (env : KeyEnv) (nd : NodeD) (inputs : AL Val) : Name :=
